@@ -669,3 +669,114 @@ Proof.
   exists n, d. split; [exact Hs|]. cbn [expected_pao p_status] in H0. change (4 =? 4) with true in H0. cbn [andb] in H0. inversion H0.
   destruct (ds_status d) as [x|]; cbn [opt_or is_some] in *; [reflexivity|discriminate].
 Qed.
+
+(* ================= what a correct node sends fits the observation length the plugin declares to libocr ================= *)
+From DS Require Import RepoConstants.
+
+Lemma varint_fuel_len k : forall v, (length (varint_fuel k v) <= S k)%nat.
+Proof. induction k as [|k IH]; intros v; cbn [varint_fuel length]; [lia|]. destruct (v <? 128); cbn [length]; [lia|]. specialize (IH (v / 128)). lia. Qed.
+Lemma varint_len_log v n : 0 < v -> Z.log2 v < 7 * Z.of_nat (S n) -> (length (varint v) <= S n)%nat.
+Proof.
+  intros Hv Hl. unfold varint. etransitivity; [apply varint_fuel_len|]. apply le_n_S.
+  pose proof (Z.log2_nonneg v). apply Nat.lt_succ_r. apply Nat.div_lt_upper_bound; [lia|]. lia.
+Qed.
+Lemma varint_len0 : length (varint 0) = 1%nat. Proof. reflexivity. Qed.
+Lemma varint_len64 v : 0 <= v < 2 ^ 64 -> (length (varint v) <= 10)%nat.
+Proof.
+  intros H. destruct (Z.eq_dec v 0) as [->|Hn]; [cbn; lia|]. apply (varint_len_log v 9); [lia|].
+  assert (Z.log2 v < 64) by (apply Z.log2_lt_pow2; lia). lia.
+Qed.
+Lemma varint_len32 v : 0 <= v < 2 ^ 32 -> (length (varint v) <= 5)%nat.
+Proof.
+  intros H. destruct (Z.eq_dec v 0) as [->|Hn]; [cbn; lia|]. apply (varint_len_log v 4); [lia|].
+  assert (Z.log2 v < 32) by (apply Z.log2_lt_pow2; lia). lia.
+Qed.
+Lemma varint_len7 v : 0 <= v < 128 -> (length (varint v) <= 1)%nat.
+Proof.
+  intros H. destruct (Z.eq_dec v 0) as [->|Hn]; [cbn; lia|]. apply (varint_len_log v 0); [lia|].
+  assert (Z.log2 v < 7) by (apply Z.log2_lt_pow2; lia). lia.
+Qed.
+Lemma tag_len k w : 1 <= k < 16 -> 0 <= w < 8 -> (length (tag k w) <= 1)%nat.
+Proof. intros Hk Hw. unfold tag. apply varint_len7. lia. Qed.
+
+Lemma f_varint_len k v n : 1 <= k < 16 -> (length (varint v) <= n)%nat -> (length (f_varint k v) <= 1 + n)%nat.
+Proof.
+  intros Hk Hv. unfold f_varint. destruct (v =? 0); [cbn; lia|]. rewrite app_length.
+  pose proof (tag_len k 0 Hk ltac:(lia)). lia.
+Qed.
+Lemma f_bytes_len k b : 1 <= k < 16 -> (length b <= 24)%nat -> (length (f_bytes k b) <= 26)%nat.
+Proof.
+  intros Hk Hb. unfold f_bytes. destruct b as [|x r] eqn:E; [cbn; lia|]. rewrite <- E in *. rewrite !app_length.
+  pose proof (tag_len k 2 Hk ltac:(lia)). pose proof (varint_len7 (Z.of_nat (length b)) ltac:(lia)). lia.
+Qed.
+Lemma b2z_varint_len b : (length (varint (b2z b)) <= 1)%nat. Proof. destruct b; cbn; lia. Qed.
+
+Lemma enc_price_len v : (length (opt_or (enc_price v) []) <= 24)%nat.
+Proof.
+  pose proof (enc_price_spec v) as H. destruct (enc_price v) as [b|]; cbn [opt_or]; [|cbn; lia].
+  destruct H as (x & _ & _ & Hl). lia.
+Qed.
+Lemma fee_field_len base src l : fee_field base src = Ok l -> (length (snd l) <= 24)%nat.
+Proof.
+  unfold fee_field. destruct src as [p|]; [|intros H; inversion H; cbn; lia].
+  destruct (p <=? -1); [intros H; inversion H; vm_compute; lia|].
+  destruct (merc_calc_fee p base) as [fee| |]; try discriminate.
+  pose proof (encode_int192_cases fee) as Hc. destruct (in192b fee).
+  - destruct Hc as (b & -> & _ & Hl). intros H; inversion H. cbn [snd]. lia.
+  - rewrite Hc. intros H; inversion H. cbn; lia.
+Qed.
+
+(* a bound that does not mention the declared limits: 103 bytes for v2, 163 for v3 / v4 *)
+Definition merc_size (ver : Z) : Z := if ver =? 2 then 103 else 163.
+Theorem merc_observation_size ver base now fail ds m : ver = 2 \/ ver = 3 \/ ver = 4 -> 0 <= now -> ds_typed ds ->
+  merc_observe234 ver base now fail ds = Ok m ->
+  Z.of_nat (length (merc_encode234 ver m)) <= merc_size ver.
+Proof.
+  intros Hv Hnow (Hmf & Hst). unfold merc_observe234. destruct fail; [discriminate|].
+  destruct (max_uint32 <? now) eqn:En; [discriminate|]. unfold max_uint32 in En.
+  destruct (fee_field base (ds_link ds)) as [l| |] eqn:El; try discriminate.
+  destruct (fee_field base (ds_native ds)) as [n| |] eqn:Enat; try discriminate.
+  cbn [bind]. intros H. inversion H; subst m; clear H.
+  pose proof (fee_field_len _ _ _ El) as Hl. pose proof (fee_field_len _ _ _ Enat) as Hn.
+  pose proof (enc_price_len (ds_bm ds)) as Hbm.
+  assert (Hts : (length (f_varint 1 now) <= 6)%nat) by (apply (f_varint_len 1 now 5); [lia|apply varint_len32; lia]).
+  assert (Hmfl : forall k, 1 <= k < 16 -> (length (f_varint k (u64w (opt_or (ds_mfts ds) 0%Z))) <= 11)%nat)
+    by (intros k Hk; apply (f_varint_len k _ 10 Hk), varint_len64, u64w_range).
+  assert (Hflag : forall k b, 1 <= k < 16 -> (length (f_varint k (b2z b)) <= 2)%nat)
+    by (intros k b Hk; apply (f_varint_len k _ 1 Hk), b2z_varint_len).
+  unfold merc_encode234, merc_size.
+  cbn [mo_ts mo_prices_valid mo_bm mo_bid mo_ask mo_mfts_valid mo_mfts mo_link_valid mo_link mo_native_valid mo_native mo_status_valid mo_status].
+  destruct (ver =? 2) eqn:E2.
+  - rewrite !app_length.
+    pose proof (f_bytes_len 2 _ ltac:(lia) Hbm). pose proof (f_bytes_len 6 _ ltac:(lia) Hl). pose proof (f_bytes_len 8 _ ltac:(lia) Hn).
+    pose proof (Hmfl 4 ltac:(lia)). pose proof (Hflag 3). pose proof (Hflag 5). pose proof (Hflag 7). pose proof (Hflag 9).
+    repeat match goal with Hf : forall b : bool, _ |- _ => let H' := fresh in
+      pose proof (Hf true ltac:(lia)) as H'; pose proof (Hf false ltac:(lia)); clear Hf end.
+    repeat match goal with |- context [f_varint ?k (b2z ?b)] => let H' := fresh in
+      assert (H' : (length (f_varint k (b2z b)) <= 2)%nat) by (apply Hflag; lia); revert H'; generalize (length (f_varint k (b2z b))) end.
+    intros. lia.
+  - assert (Hbid : (length (opt_or (if (ver =? 3)%Z then enc_price (ds_bid ds) else None) []) <= 24)%nat)
+      by (destruct (ver =? 3); [apply enc_price_len|cbn; lia]).
+    assert (Hask : (length (opt_or (if (ver =? 3)%Z then enc_price (ds_ask ds) else None) []) <= 24)%nat)
+      by (destruct (ver =? 3); [apply enc_price_len|cbn; lia]).
+    assert (Hstat : (length (f_varint 12 (if (ver =? 4)%Z then opt_or (ds_status ds) 0%Z else 0%Z)) <= 6)%nat).
+    { apply (f_varint_len 12 _ 5); [lia|]. apply varint_len32. destruct (ver =? 4); [|lia].
+      destruct (ds_status ds) as [v|] eqn:Es; cbn [opt_or]; [apply Hst; reflexivity|lia]. }
+    rewrite !app_length.
+    pose proof (f_bytes_len 2 _ ltac:(lia) Hbm). pose proof (f_bytes_len 3 _ ltac:(lia) Hbid). pose proof (f_bytes_len 4 _ ltac:(lia) Hask).
+    pose proof (f_bytes_len 8 _ ltac:(lia) Hl). pose proof (f_bytes_len 10 _ ltac:(lia) Hn). pose proof (Hmfl 6 ltac:(lia)).
+    repeat match goal with |- context [f_varint ?k (b2z ?b)] => let H' := fresh in
+      assert (H' : (length (f_varint k (b2z b)) <= 2)%nat) by (apply Hflag; lia); revert H'; generalize (length (f_varint k (b2z b))) end.
+    intros.
+    lia.
+Qed.
+
+(* ... which is within what the real factories declare (the declared constants are regenerated from /repo; the comparison
+   is decided by evaluation, so raising them keeps the theorem, lowering them below the real size breaks it) *)
+Theorem merc_observation_within_limit ver base now fail ds m : ver = 2 \/ ver = 3 \/ ver = 4 -> 0 <= now -> ds_typed ds ->
+  merc_observe234 ver base now fail ds = Ok m ->
+  Z.of_nat (length (merc_encode234 ver m)) <= merc_limit ver.
+Proof.
+  intros Hv Hnow Hds H. etransitivity; [exact (merc_observation_size ver base now fail ds m Hv Hnow Hds H)|].
+  destruct Hv as [-> | [-> | ->]]; vm_compute; discriminate.
+Qed.
